@@ -115,8 +115,16 @@ World::World(const Flags& f, Findings fnd, std::shared_ptr<impl::Lexicon> shared
    };
    this_ident = util::view<Identifier>(L.get_this(L.void_type()).name());
    const std::size_t np = sizeof prelude / sizeof prelude[0];
+   if (flags.reverse_prelude)   // the leaves of the prelude are requested in the opposite order first (this world's own pools do not matter)
+      for (std::size_t i = np; i-- > 0;) {
+         auto& p = prelude[i];
+         const std::string n = p.op;
+         if (n != "STRING" && n != "IDENT_W" && n != "IDENT_S" && n != "LOGOGRAM" && n != "LITERAL") continue;
+         int k = op_index(p.op);
+         if (k >= 0) op_table()[k].fn(*this, p.args);
+      }
    for (std::size_t i = 0; i < np; ++i) {
-      auto& p = prelude[flags.reverse_prelude ? np - 1 - i : i];
+      auto& p = prelude[i];
       int k = op_index(p.op);
       if (k >= 0) op_table()[k].fn(*this, p.args);
    }
